@@ -113,6 +113,10 @@ def main() -> int:
 
     # ------------------------------------------------------------------ 2. correspondence
     total = float(os.environ.get("VERIF_BUDGET") or (spec.get("quick_s", 60) if args.tier == "quick" else spec.get("thorough_s", 600)))
+    import anchors
+    changed_files = anchors.changed_for(prop)
+    if changed_files and args.tier == "quick" and not os.environ.get("VERIF_BUDGET"):
+        total *= 3          # the anchored code differs from the tree the table was made for: sample more (not a verdict)
     results: list[StreamResult] = []
     infra_errors = []
     streams = spec["streams"]
@@ -214,6 +218,7 @@ def main() -> int:
             "proof_failures": proof.get("failures", []),
             "known_findings_hit": sorted(seen_known),
             "infrastructure_errors": infra_errors,
+            "changed_anchor_files": changed_files,
         },
         "assumptions": spec.get("assumptions", []),
         "wall_s": round(time.time() - t0, 2),
